@@ -64,6 +64,7 @@ type V struct {
 	Syn   bool     `json:"syn"`  // synthetic (FieldValue*): no bits
 	Bits  string   `json:"bits"` // raw: the bits as '0'/'1' text
 	Inv   bool     `json:"inv"`  // raw: the bytes are not valid UTF-8
+	NRoot bool     `json:"nroot"` // the value is the root of a nested buffer (struct, array or raw bits)
 }
 
 func (v *V) fix() {
@@ -295,6 +296,13 @@ func numOf(j J) *big.Int {
 }
 
 func encode(v *V, w *bitw) {
+	if v.NRoot {
+		return // its bits live in a buffer of its own (encodeOwn)
+	}
+	encodeOwn(v, w)
+}
+
+func encodeOwn(v *V, w *bitw) {
 	switch v.T {
 	case "struct", "array":
 		for i := range v.Kids {
@@ -381,7 +389,36 @@ func symGo(v *V) any {
 	return goOf(v.Sym)
 }
 
+func ownBuffer(v *V) bitio.ReaderAtSeeker {
+	w := &bitw{}
+	encodeOwn(v, w)
+	bs, n := w.bytes()
+	return bitio.NewBitReader(bs, n)
+}
+
 func decodeField(d *decode.D, name string, v *V) {
+	if v.NRoot {
+		switch {
+		case v.T == "struct": // the way gzip / zip / ogg nest a format in a buffer of its own
+			d.FieldFormatBitBuf(name, ownBuffer(v), decode.FormatFn(func(d *decode.D) any {
+				for i := range v.Kids {
+					decodeField(d, v.Names[i], &v.Kids[i])
+				}
+				return nil
+			}), nil)
+		case v.T == "array":
+			d.FieldArrayRootBitBufFn(name, ownBuffer(v), func(d *decode.D) {
+				for i := range v.Kids {
+					decodeField(d, "e", &v.Kids[i])
+				}
+			})
+		case v.Kind == "raw":
+			d.FieldRootBitBuf(name, ownBuffer(v))
+		default:
+			d.Fatalf("verif_c08: only structs, arrays and raw bits can be nested roots")
+		}
+		return
+	}
 	switch v.T {
 	case "struct":
 		d.FieldStruct(name, func(d *decode.D) {
@@ -558,7 +595,7 @@ func describe(dv *decode.Value, o *descOpts) (V, bool) {
 	if o.maxNodes > 0 && o.n > o.maxNodes {
 		return V{}, false
 	}
-	out := V{Names: []string{}, Kids: []V{}, A: jNone, Sym: jNone}
+	out := V{Names: []string{}, Kids: []V{}, A: jNone, Sym: jNone, NRoot: dv.IsRoot && dv.Parent != nil}
 	switch vv := dv.V.(type) {
 	case *decode.Compound:
 		if vv.IsArray {
@@ -674,8 +711,8 @@ func rawValid(bits string) bool {
 }
 
 func eqV(a, b *V) string {
-	if a.T != b.T {
-		return fmt.Sprintf("t %s/%s", a.T, b.T)
+	if a.T != b.T || a.NRoot != b.NRoot {
+		return fmt.Sprintf("t %s/%s nroot %v/%v", a.T, b.T, a.NRoot, b.NRoot)
 	}
 	if a.T == "scalar" {
 		if a.Kind != b.Kind || !eqJ(a.A, b.A) || !eqJ(a.Sym, b.Sym) || a.Bits != b.Bits || a.Inv != b.Inv || a.Desc != b.Desc || a.Gap != b.Gap || a.Syn != b.Syn {
